@@ -117,6 +117,24 @@ def odd_option_cases(tier):
     return out
 
 
+def array_option_cases(tier):
+    """Options declared for an ARRAY field hold for every element, at every depth of a nested array."""
+    out = []
+    for arr in (Arr(U(8), 2), Arr(I(16), 2), Arr(Arr(U(8), 2), 2), Arr(Arr(I(16), 1), 2), Arr(Arr(Arr(U(8), 1), 2), 2)):
+        for pos in (1, 2):
+            fields = [U(8), U(8)]
+            fields.insert(pos, arr)
+            for big in ((), (pos,)):
+                for mux in (None, {"signal": 0, "count": 2, "on": (pos,)}):
+                    if not big and not mux:
+                        continue
+                    spec = {"fields": tuple(fields), "big": big, "elementwise": True}
+                    if mux:
+                        spec["mux"] = mux
+                    out.append(("arropts", spec))
+    return out
+
+
 def unit_cases(tier):
     out = []
     inner = ("st", (("p", 0, U(8), "degC", None), ("q", 1, I(8), None, None)))
@@ -225,8 +243,12 @@ def build_case(kind, spec, idx, h):
     if mux:
         for i in mux["on"]:
             sigs.append(("f%d" % i, (("mux_signal", "f%d" % mux["signal"]), ("mux_count", mux["count"]))))
+    merged = {}
+    for fname, opts in sigs:  # one signal block per field
+        merged[fname] = merged.get(fname, ()) + tuple(opts)
+    sigs = list(merged.items())
     decls.append(("impl", "can", sname, None, (("id", idx % 2048),), tuple(sigs)))
-    bindings.append({"struct": sname, "name": sname, "id": idx % 2048, "bus": "default", "big": {"f%d" % i for i in spec.get("big", ())}, "mux": mux})
+    bindings.append({"struct": sname, "name": sname, "id": idx % 2048, "bus": "default", "big": {"f%d" % i for i in spec.get("big", ())}, "mux": mux, "elementwise": bool(spec.get("elementwise"))})
     return decls, bindings
 
 
@@ -356,7 +378,7 @@ def make_worker(tier):
                         units = unit_map(decls, b["struct"])
                         for l in leaves:
                             s = msg["signals"][l.name.replace("::", "_")]
-                            big = l.field in b["big"] and l.name == l.field
+                            big = l.field in b["big"] and (l.name == l.field or b.get("elementwise"))
                             exp = {
                                 "start": l.start + 7 if big else l.start,
                                 "length": l.width,
@@ -372,7 +394,7 @@ def make_worker(tier):
                                 errs.append("%s: scale/offset (%r,%r)" % (s["name"], s["scale"], s["offset"]))
                             if mux:
                                 is_muxer = l.name == mux["leaf"]
-                                is_muxed = l.name in mux["on_leaves"]
+                                is_muxed = l.name in mux["on_leaves"] or (bool(b.get("elementwise")) and l.field in mux["on_leaves"])
                                 if is_muxer != (s["mux"] == "M"):
                                     errs.append("%s: multiplexer flag %r" % (s["name"], s["mux"]))
                                 if is_muxed:
@@ -470,7 +492,7 @@ def unit_map(decls, sname):
 def run(tier):
     common.bind_repo()
     r = Run("C05", tier)
-    cases = layout_cases(tier) + endian_cases(tier) + mux_cases(tier) + unit_cases(tier) + bus_cases(tier) + twobind_cases(tier) + muxnames_cases(tier) + odd_option_cases(tier)
+    cases = layout_cases(tier) + endian_cases(tier) + mux_cases(tier) + unit_cases(tier) + bus_cases(tier) + twobind_cases(tier) + muxnames_cases(tier) + odd_option_cases(tier) + array_option_cases(tier)
     counts = {}
     for k, _ in cases:
         counts[k] = counts.get(k, 0) + 1
@@ -479,7 +501,7 @@ def run(tier):
         r.stats.merge(s)
     r.rule = (
         "states = CAN schemas: every 1..3-field fixed-size message <= 64 bits over {u/i widths, f32, f64, enums (both edges of a width), nested structs, arrays of scalars/structs}; every subset of byte-aligned "
-        "fields marked big-endian; mux on every subset of the payload fields with counts 1,2,4; mux with the selector inside a nested struct and/or names beyond the 32-character DBC symbol limit; units at every nesting level; 1..3 bindings over buses {default,b1,b2}, renamed or not, ids {0,1,100,2047}. "
+        "fields marked big-endian; mux on every subset of the payload fields with counts 1,2,4; mux with the selector inside a nested struct and/or names beyond the 32-character DBC symbol limit; options (byte order, mux) declared for an array field, incl. arrays of arrays, holding for every element; units at every nesting level; 1..3 bindings over buses {default,b1,b2}, renamed or not, ids {0,1,100,2047}. "
         "Each is generated by the real fcp_dbc generator; oracle (1) own DBC reader vs reference layout (id, name, length, per-leaf start/width/sign/float/byte order/unit/mux) + geometry; "
         "(2) cantools decodes every reference-packed boundary frame to the original values. non-trivial = messages with >= 2 leaves."
     )
